@@ -243,9 +243,9 @@ func (l *ptLedger) add(xs ...[]float64) {
 // Point identity is only meaningful when the displaced points are exact
 // (dyadic steps): with general steps the bits of x+Step*Loc depend on the
 // order of the operations, so only the origin rule is checked there.
-func (l *ptLedger) compare(naive map[string]int, originKey string, originKnown, exactPoints bool) (clause, detail string) {
+func (l *ptLedger) compare(naive map[string]int, originKey string, originKnown, exactPoints bool, originReturns int) (clause, detail string) {
 	if !exactPoints {
-		if n := l.pts[originKey]; n > 0 && originKnown {
+		if n := l.pts[originKey]; n > originReturns && originKnown {
 			return "origin-evaluated-although-known", fmt.Sprintf("the origin was evaluated %d time(s) with OriginKnown/OriginValue set", n)
 		}
 		total := 0
@@ -264,7 +264,13 @@ func (l *ptLedger) compare(naive map[string]int, originKey string, originKnown, 
 	sort.Strings(keys)
 	for _, k := range keys {
 		if k == originKey && originKnown {
-			return "origin-evaluated-although-known", fmt.Sprintf("the origin was evaluated %d time(s) with OriginKnown/OriginValue set", l.pts[k])
+			// originReturns: stencil combinations other than (0,0) that lead
+			// back to the origin (x + l h - l h in a two-fold formula) are
+			// ordinary evaluations.
+			if l.pts[k] > originReturns {
+				return "origin-evaluated-although-known", fmt.Sprintf("the origin was evaluated %d time(s) with OriginKnown/OriginValue set (%d other stencil combinations lead back to it)", l.pts[k], originReturns)
+			}
+			continue
 		}
 		want, ok := naive[k]
 		if !ok {
@@ -293,15 +299,16 @@ func (l *ptLedger) compare(naive map[string]int, originKey string, originKnown, 
 // ---- the check ------------------------------------------------------------------------
 
 type fdCase struct {
-	r        *vrt.Rand
-	form     fdFormula
-	exact    bool // dyadic step, integer data: exact equality demanded
-	step     float64
-	nv       int
-	x        []float64
-	known    bool
-	conc     bool
-	modeName string
+	r         *vrt.Rand
+	form      fdFormula
+	exact     bool // dyadic step, integer data: exact equality demanded
+	step      float64
+	nv        int
+	x         []float64
+	known     bool
+	conc      bool
+	modeName  string
+	generated bool
 }
 
 // ledgerPath is the path class of the evaluation-ledger clauses: which
@@ -333,13 +340,20 @@ func (k *fdCase) path() string {
 
 func checkFD(c *vrt.Ctx) {
 	forms := fdFormulas()
+	nFixed := len(forms)
+	forms = append(forms, userFormulas()...)
 	nPer := c.Pick(120, 1500)
+	nUser := c.Pick(8, 64)
 	type job struct {
 		fi, rep int
 	}
 	var jobs []job
 	for fi := range forms {
-		for rep := 0; rep < nPer; rep++ {
+		n := nPer
+		if fi >= nFixed {
+			n = nUser
+		}
+		for rep := 0; rep < n; rep++ {
 			jobs = append(jobs, job{fi, rep})
 		}
 	}
@@ -352,13 +366,25 @@ func checkFD(c *vrt.Ctx) {
 		k.nv = 1 + (j.rep/4)%8
 		k.known = (j.rep/2)%2 == 1
 		k.conc = j.rep%2 == 1
+		k.generated = j.fi >= nFixed
+		if k.generated {
+			k.nv = 1 + (j.rep/4)%3
+		}
 		k.setup()
+		if k.generated && k.exact && !k.fitExactDegree() {
+			// not even the derivative order is representable exactly:
+			// judge this case with the rounding band instead.
+			k.exact = false
+			k.setup()
+			c.Count("fd_generated_formula_cases_moved_from_exact_to_rounding_mode", 1)
+		}
 		fdDerivative(c, sh, k)
-		if k.form.f.Derivative == 1 {
+		switch k.form.f.Derivative {
+		case 1:
 			fdGradientJacobian(c, sh, k)
 			fdHessian(c, sh, k)
 			fdCrossLaplacian(c, sh, k)
-		} else {
+		case 2:
 			fdLaplacian(c, sh, k)
 		}
 		sh.flush()
@@ -374,6 +400,25 @@ func checkFD(c *vrt.Ctx) {
 func (k *fdCase) setup() {
 	r := k.r
 	k.x = make([]float64, k.nv)
+	if k.generated {
+		// many-point and high-order stencils: small quarter-integer
+		// coordinates and steps 1, 1/2, 1/4 in exact mode; steps that keep
+		// h^-d moderate in rounding mode.
+		if k.exact {
+			k.modeName = "exact-dyadic"
+			for i := range k.x {
+				k.x[i] = float64(r.Range(-4, 4)) / 4
+			}
+			k.step = math.Ldexp(1, -r.Range(0, 2))
+			return
+		}
+		k.modeName = "rounding-band"
+		for i := range k.x {
+			k.x[i] = r.Sym() * 2
+		}
+		k.step = r.PickFloat(0.3, 0.1, 1.0/3, 0.05, 0.01)
+		return
+	}
 	if k.exact {
 		k.modeName = "exact-dyadic"
 		for i := range k.x {
@@ -393,7 +438,7 @@ func (k *fdCase) setup() {
 // representable: sum |c| prod (|x_i|+maxLoc*h*2)^e times 2^(s D) times the
 // stencil amplification stays below 2^47, s = bits of the finest dyadic grid.
 func exactOK(p poly, x []float64, h, maxLoc float64) bool {
-	s := math.Max(2, -math.Log2(h)) // coordinates are multiples of 2^-2
+	s := math.Max(2, 1-math.Log2(h)) // coordinates are multiples of 2^-2, locations of 1/2
 	B := p.evalAbs(x, 2*maxLoc*h) * math.Exp2(s*float64(p.totalDeg()))
 	return B < math.Exp2(47)
 }
@@ -468,7 +513,7 @@ func fdDerivative(c *vrt.Ctx, sh *evalShard, k *fdCase) {
 	for _, pt := range k.form.f.Stencil {
 		naive[ptKey([]float64{x + k.step*pt.Loc})]++
 	}
-	if cl, det := led.compare(naive, ptKey([]float64{x}), k.known && hasZeroLoc(k.form.f), k.exact); cl != "" {
+	if cl, det := led.compare(naive, ptKey([]float64{x}), k.known && hasZeroLoc(k.form.f), k.exact, 0); cl != "" {
 		c.Violation("fd.Derivative|"+k.ledgerPath()+"|"+cl, det, replay)
 	}
 }
@@ -540,7 +585,7 @@ func fdGradientJacobian(c *vrt.Ctx, sh *evalShard, k *fdCase) {
 	if hasZeroLoc(k.form.f) {
 		naive[ptKey(x)]++
 	}
-	if cl, det := led.compare(naive, ptKey(x), k.known && hasZeroLoc(k.form.f), k.exact); cl != "" {
+	if cl, det := led.compare(naive, ptKey(x), k.known && hasZeroLoc(k.form.f), k.exact, 0); cl != "" {
 		c.Violation("fd.Gradient|"+k.ledgerPath()+"|"+cl, det, replay)
 	}
 
@@ -591,7 +636,7 @@ func fdGradientJacobian(c *vrt.Ctx, sh *evalShard, k *fdCase) {
 			}
 		}
 	}
-	if cl, det := jled.compare(naive, ptKey(x), k.known && hasZeroLoc(k.form.f), k.exact); cl != "" {
+	if cl, det := jled.compare(naive, ptKey(x), k.known && hasZeroLoc(k.form.f), k.exact, 0); cl != "" {
 		c.Violation("fd.Jacobian|"+k.ledgerPath()+"|"+cl, det, jreplay)
 	}
 }
@@ -658,7 +703,15 @@ func fdHessian(c *vrt.Ctx, sh *evalShard, k *fdCase) {
 	if hasZeroLoc(k.form.f) {
 		naive[ptKey(x)]++
 	}
-	if cl, det := led.compare(naive, ptKey(x), k.known && hasZeroLoc(k.form.f), k.exact); cl != "" {
+	returns := 0
+	for _, pi := range k.form.f.Stencil {
+		for _, pj := range k.form.f.Stencil {
+			if pi.Loc+pj.Loc == 0 && pi.Loc != 0 {
+				returns += nv
+			}
+		}
+	}
+	if cl, det := led.compare(naive, ptKey(x), k.known && hasZeroLoc(k.form.f), k.exact, returns); cl != "" {
 		c.Violation("fd.Hessian|"+k.ledgerPath()+"|"+cl, det, replay)
 	}
 
@@ -789,7 +842,7 @@ func fdLaplacian(c *vrt.Ctx, sh *evalShard, k *fdCase) {
 	if hasZeroLoc(k.form.f) {
 		naive[ptKey(x)]++
 	}
-	if cl, det := led.compare(naive, ptKey(x), k.known && hasZeroLoc(k.form.f), k.exact); cl != "" {
+	if cl, det := led.compare(naive, ptKey(x), k.known && hasZeroLoc(k.form.f), k.exact, 0); cl != "" {
 		c.Violation("fd.Laplacian|"+k.ledgerPath()+"|"+cl, det, replay)
 	}
 }
@@ -849,7 +902,7 @@ func fdCrossLaplacian(c *vrt.Ctx, sh *evalShard, k *fdCase) {
 	if hasZeroLoc(k.form.f) {
 		naive[ptKey(x, y)]++
 	}
-	if cl, det := led.compare(naive, ptKey(x, y), k.known && hasZeroLoc(k.form.f), k.exact); cl != "" {
+	if cl, det := led.compare(naive, ptKey(x, y), k.known && hasZeroLoc(k.form.f), k.exact, 0); cl != "" {
 		c.Violation("fd.CrossLaplacian|"+k.ledgerPath()+"|"+cl, det, replay)
 	}
 
